@@ -10,7 +10,10 @@ import (
 type verifNullPConn struct{ verifNullConn }
 
 func (p *verifNullPConn) ReadFrom(b []byte) (int, net.Addr, error)  { return 0, verifAddr{}, verifTimeoutErr{} }
-func (p *verifNullPConn) WriteTo(b []byte, a net.Addr) (int, error) { return len(b), nil }
+func (p *verifNullPConn) WriteTo(b []byte, a net.Addr) (int, error) {
+	vdg.datagrams = append(vdg.datagrams, append([]byte(nil), b...))
+	return len(b), nil
+}
 
 type verifTimeoutErr struct{}
 
@@ -42,3 +45,9 @@ func verifIsHelloVerifyRequest(msg handshakeMessage) bool {
 	_, ok := msg.(*helloVerifyRequestMsg)
 	return ok
 }
+
+// the datagram stack keeps its real buffering / flushing / retransmission snapshot: the message stubs hand a
+// marker of every record to the real write(), and flush is the real one
+func verifDriverWrite(c *Conn, data []byte)  { c.write(append([]byte{0xAA}, data...)) }
+func verifDriverFlush(c *Conn) (int, error) { return c.flush__orig() }
+func verifDriverTimeout() error              { return verifTimeoutErr{} }
